@@ -276,6 +276,19 @@ def run_readback(ctx):
         rb("build_query", lambda: URL.build(scheme="http", host="h", query={t: [t, "x"]}), lambda u: list(u.query.items()), [(t, t), (t, "x")])
         rb("extend_query", lambda: base.extend_query({k2: t}), lambda u: list(u.query.items()), [("q", "1"), (k2, t)])
         rb("with_query_kwargs", lambda: base.with_query(a=t), lambda u: u.query["a"], t)
+        # the supplied text is spelled exactly like the receiver's CURRENT raw component (an "unchanged?" shortcut must compare like with like)
+        if not any(c in t for c in "/?#@:[]") and t.isascii() and t.isprintable() and " " not in t:
+            eb = guarded(URL, f"http://{t}:{t}@h/d/{t}?{t}#{t}", encoded=True)
+            if not is_exc(eb) and guarded(lambda: eb.raw_fragment) == t:
+                rb("same_as_raw.with_fragment", lambda: eb.with_fragment(t), lambda u: u.fragment, t)
+                rb("same_as_raw.with_user", lambda: eb.with_user(t), lambda u: u.user, t)
+                rb("same_as_raw.with_password", lambda: eb.with_password(t), lambda u: u.password, t)
+                rb("same_as_raw.with_name", lambda: eb.with_name(t), lambda u: u.name, t, slashfree)
+                rb("same_as_raw.with_path", lambda: eb.with_path("/d/" + t), lambda u: u.path, "/d/" + t, nodots)
+                rb("same_as_raw.with_query", lambda: eb.with_query({t: t}), lambda u: list(u.query.items()), [(t, t)])
+                rb("same_as_raw.with_fragment_twice", lambda: eb.with_fragment(t).with_fragment(t), lambda u: u.fragment, t)
+                rb("same_as_own_raw.with_fragment", lambda: base.with_fragment(t).with_fragment(base.with_fragment(t).raw_fragment), lambda u: u.fragment, base.with_fragment(t).raw_fragment)
+                rb("same_as_own_raw.with_user", lambda: base.with_user(t).with_user(base.with_user(t).raw_user), lambda u: u.user, base.with_user(t).raw_user)
         ts = StrSub(t)
         rb("strsub_with_query_dict", lambda: base.with_query({ts: ts}), lambda u: list(u.query.items()), [(t, t)])
         rb("strsub_with_query_kwargs", lambda: base.with_query(a=ts), lambda u: u.query["a"], t)
